@@ -17,87 +17,119 @@ Proof.
   intros H. apply map_ext_in. intros [m g] Hin. cbn [fst snd]. rewrite adopt_nopend_sh; [reflexivity|]. apply (H m g Hin).
 Qed.
 
-Lemma map_update_stale n f : forall l, NoDup (map fst l) -> lookup n l = Some f ->
-  (forall m g, In (m, g) l -> m <> n -> df_pend g = None) ->
-  map (fun nf : fname * dfile => (fst nf, dirfix_file (adopt_file (snd nf)))) l =
-  update n (dirfix_file (adopt_file f)) (map (fun nf : fname * dfile => (fst nf, sh_file (snd nf))) l).
-Proof.
-  induction l as [|[m g] r IH]; intros ND Hl Hst; [discriminate|].
-  cbn [map fst snd update lookup] in *. inversion ND as [|? ? Hn NDr]; subst.
-  destruct (fname_eqb n m) eqn:E.
-  - apply fname_eqb_eq in E. subst m. inversion Hl; subst g. f_equal. apply map_adopt_sh.
-    intros m g Hin. apply (Hst m g (or_intror Hin)). intros ->. apply Hn. apply in_map_iff. exists (n, g). auto.
-  - f_equal.
-    + rewrite adopt_nopend_sh; [reflexivity|]. apply (Hst m g (or_introl eq_refl)). apply fname_eqb_neq in E. congruence.
-    + apply IH; auto. intros m' g' Hin. apply (Hst m' g' (or_intror Hin)).
-Qed.
-
-Lemma ad_files_stale n f d : NoDup (map fst (dk_files d)) -> stale_ok (Some n) d -> lookup n (dk_files d) = Some f ->
-  dk_files (ad d) = update n (dirfix_file (adopt_file f)) (dk_files (sh d)).
-Proof.
-  intros ND Hso Hl. unfold ad, dirfix, sh. rewrite adopt_is_map, map_files_comp. cbn [map_files dk_files].
-  apply map_update_stale; auto. intros m g Hin Hne. destruct (df_pend g) eqn:E; [|reflexivity]. exfalso.
-  assert (K : Some n = Some m) by (apply (Hso m g); [apply In_lookup; assumption|congruence]). congruence.
-Qed.
+Lemma ad_lookup n d : lookup n (dk_files (ad d)) = option_map (fun f => dirfix_file (adopt_file f)) (lookup n (dk_files d)).
+Proof. unfold ad, dirfix. rewrite adopt_is_map, map_files_comp. apply lookup_map_files. Qed.
 
 Lemma spec_accepts_step a o a' : spec_accepts a o = Some a' -> a' = snd (step_spec a o).
 Proof. unfold spec_accepts. destruct (step_spec a o) as [r x]. destruct r; intros E; inversion E; reflexivity. Qed.
+
+(* ---- the recovery view of a disk that agrees with a clean disk on the listed files ---- *)
+Lemma RD_frame c nb d dm alts defer :
+  DIs c nb dm -> dk_meta dm = dk_meta d -> dk_stable dm = dk_stable d -> NoDup (map fst (dk_files d)) ->
+  (forall n, lookup n (dk_files d) <> None -> lookup n (dk_files dm) <> None) ->
+  (forall ps s, dk_meta dm = Some ps -> In s (ps_segs ps) ->
+                lookup (name_of s) (dk_files (ad d)) = lookup (name_of s) (dk_files dm)) ->
+  In (sp_of dm) (candidates alts defer) -> RD c nb d alts defer.
+Proof.
+  intros HD Hm Hs ND Hk Hlk Hin.
+  assert (HDa : DIs c nb (ad d)).
+  { apply (DIs_frame c nb dm (ad d) HD).
+    - symmetry. exact Hm.
+    - rewrite ad_keys. exact ND.
+    - intros n f Hl. rewrite ad_lookup in Hl. destruct (lookup n (dk_files d)) as [g|] eqn:Eg; [|discriminate].
+      specialize (Hk n ltac:(rewrite Eg; discriminate)). destruct (lookup n (dk_files dm)) as [g'|]; [eexists; reflexivity|congruence].
+    - intros ps s Hm' Hs'. apply (Hlk ps s Hm' Hs'). }
+  split; [exact HDa|].
+  replace (sp_of (ad d)) with (sp_of dm); [exact Hin|].
+  unfold sp_of. f_equal; [|exact Hs].
+  symmetry. apply dread_ext; [symmetry; exact Hm|]. intros ps s Hm' Hs'. unfold file_ents. rewrite (Hlk ps s Hm' Hs'). reflexivity.
+Qed.
+
+Lemma adopt_nopend_sh' g : df_pend g = None -> dirfix_file (adopt_file g) = sh_file g.
+Proof. intros H. unfold adopt_file. rewrite H. unfold dirfix_file, sh_file. rewrite H. reflexivity. Qed.
 
 (* ---- the reading of the adopted disk ---- *)
 Lemma live_RD c nb w d alts defer :
   Live c nb w d defer -> In (sp_of (sh d)) alts -> RD c nb d alts defer.
 Proof.
   intros (HL & Hst) Hin. pose proof (LInv_NoDup_sh _ _ _ _ HL) as ND.
-  destruct Hst as [Hn|(t & f & p & Ht & Hf & Hp & Hso & Hsb)]; [eapply RD_of_clean; eauto|].
-  destruct (LInv_view _ _ _ _ HL) as (S & t' & f0 & tw & V).
-  assert (t' = t). { rewrite (lv_segs _ _ _ _ _ _ _ _ V), tail_info_app in Ht. inversion Ht. reflexivity. } subst t'.
-  assert (Hf0 : f0 = sh_file f).
-  { pose proof (lv_file _ _ _ _ _ _ _ _ V) as K. unfold sh in K. rewrite lookup_map_files, Hf in K. cbn in K. inversion K. reflexivity. }
-  destruct Hsb as (Hse & Hne & Hfz & Hbd & Hls).
-  set (pe := pb_ents p) in *.
-  set (f' := dirfix_file (adopt_file f)).
-  assert (Ef' : df_ents f' = df_ents f ++ pe /\ df_end f' = pb_end p /\ df_seal f' = pb_seal p /\ df_pend f' = None /\ df_dir f' = true).
-  { unfold f', adopt_file. rewrite Hp. cbn. auto. }
-  destruct Ef' as (F1 & F2 & F3 & F4 & F5).
-  pose proof (ad_files_stale _ _ _ ND Hso Hf) as Hfiles. fold f' in Hfiles.
+  destruct (LInv_view _ _ _ _ HL) as (S & t & f0 & tw & V).
   pose proof (lv_dis _ _ _ _ _ _ _ _ V) as HD. pose proof (lv_meta _ _ _ _ _ _ _ _ V) as Hm.
+  assert (Htf : exists f, lookup (name_of t) (dk_files d) = Some f /\ f0 = sh_file f).
+  { pose proof (lv_file _ _ _ _ _ _ _ _ V) as K. unfold sh in K. rewrite lookup_map_files in K.
+    destruct (lookup (name_of t) (dk_files d)) as [f|]; [|discriminate]. cbn in K. inversion K. exists f. auto. }
+  destruct Htf as (f & Hf & Hf0).
+  assert (Hlisted : forall s, In s (S ++ [t]) -> ~ unlisted d (name_of s)).
+  { intros s Hs Hu. apply (Hu _ s Hm Hs). reflexivity. }
+  (* files of sealed segments carry no pending batch *)
+  assert (Hsealed : forall s g, In s S -> lookup (name_of s) (dk_files d) = Some g -> df_pend g = None).
+  { intros s g Hs Hg. destruct (df_pend g) as [p|] eqn:Ep; [|reflexivity]. exfalso.
+    destruct (Hst _ g p Hg Ep) as [(t' & Ht' & Hn & _)|Hu].
+    - rewrite (lv_segs _ _ _ _ _ _ _ _ V), tail_info_app in Ht'. inversion Ht'; subst t'.
+      apply (DIs_sealed_neq c nb (sh d) _ S t s HD Hm eq_refl Hs). exact Hn.
+    - apply (Hlisted s); [apply in_or_app; left; exact Hs|exact Hu]. }
+  set (f' := dirfix_file (adopt_file f)).
+  set (dm := {| dk_files := update (name_of t) f' (dk_files (sh d)); dk_meta := dk_meta (sh d);
+                dk_stable := dk_stable (sh d); dk_inited := dk_inited (sh d) |}).
   pose proof (lv_tok _ _ _ _ _ _ _ _ V) as Htok. pose proof (lv_twf V) as (_ & _ & Hb1 & _ & Hbm & _).
   pose proof (lv_min_cond V) as Hmc. rewrite Hf0 in Hmc. cbn [sh_file df_ents] in Hmc.
-  assert (Htok' : tail_ok c (ad d) t).
-  { destruct Htok as (Hu & _). split; [exact Hu|]. rewrite Hfiles, lookup_update_eq.
-    unfold cur_ents, cur_end, cur_seal. rewrite F1, F2, F3, F4, F5.
+  (* the shape of the adopted tail file *)
+  assert (Hshape : exists pe, df_ents f' = df_ents f ++ pe /\ df_pend f' = None /\ df_dir f' = true /\
+            fsz_ok (c_seg_size c) (df_ents f ++ pe) (df_end f') (df_seal f') /\
+            si_base t + llen (df_ents f ++ pe) < two64 /\
+            (pe = [] \/ (sop_ok (OStore pe) /\ In (OStore pe) defer /\
+               exists l0 r, pe = l0 :: r /\ l_index l0 = si_base t + llen (df_ents f) /\ consecutive (l_index l0) pe = true))).
+  { destruct (df_pend f) as [p|] eqn:Ep.
+    - destruct (Hst _ f p Hf Ep) as [(t' & Ht' & _ & Hsb)|Hu]; [|exfalso; apply (Hlisted t); [apply in_or_app; right; left; reflexivity|exact Hu]].
+      rewrite (lv_segs _ _ _ _ _ _ _ _ V), tail_info_app in Ht'. inversion Ht'; subst t'.
+      destruct Hsb as (Hse & Hne & Hfz & Hbd & Hls). exists (pb_ents p). unfold f', adopt_file. rewrite Ep. cbn.
+      split; [reflexivity|]. split; [reflexivity|]. split; [reflexivity|]. split; [exact Hfz|]. split; [exact Hbd|].
+      destruct (list_eq_dec_nil (pb_ents p)) as [E|E]; [left; exact E|right; apply Hls; exact E].
+    - exists []. unfold f', adopt_file. rewrite Ep. cbn. rewrite app_nil_r.
+      destruct Htok as (_ & Ht'). rewrite (lv_file _ _ _ _ _ _ _ _ V) in Ht'. rewrite Hf0 in Ht'. cbn in Ht'.
+      destruct Ht' as (Z1 & _ & _ & _ & _ & Z6). unfold cur_ents in Z6. cbn in Z6.
+      split; [reflexivity|]. split; [exact Ep|]. split; [reflexivity|]. split; [exact Z1|]. split; [exact Z6|left; reflexivity]. }
+  destruct Hshape as (pe & F1 & F4 & F5 & Hfz & Hbd & Hpe).
+  assert (Htok' : tail_ok c dm t).
+  { destruct Htok as (Hu & _). split; [exact Hu|]. cbn [dm dk_files]. rewrite lookup_update_eq.
+    unfold cur_ents, cur_end, cur_seal. rewrite F1, F4, F5.
     split; [exact Hfz|]. split; [exact Hfz|]. split; [discriminate|]. split; [reflexivity|].
     split; [|exact Hbd]. rewrite llen_app. destruct (llen (df_ents f) =? 0) eqn:Z.
     - destruct (llen (df_ents f) + llen pe =? 0) eqn:Z2; [exact Hmc|lia].
     - replace (llen (df_ents f) + llen pe =? 0) with false by lia. lia. }
-  assert (HD' : DIs c nb (ad d)).
-  { eapply (DIs_update_tail c nb (sh d) (ad d) _ S t f' HD Hm eq_refl Hfiles eq_refl Htok'). }
-  split; [exact HD'|].
-  assert (Hm' : dk_meta (ad d) = Some {| ps_next_id := st_next_id w; ps_segs := S ++ [t] |}) by exact Hm.
-  assert (Hrd : dread (ad d) = slog_of (hd_min S t) (lv_es (sh d) S t f0 ++ pe)).
-  { rewrite (dread_decomp c nb (ad d) _ S t HD' Hm' eq_refl).
-    rewrite (sealed_es_update (sh d) (ad d) S t f' Hfiles); [|intros s Hs; eapply (DIs_sealed_neq c nb (sh d) _ S t s HD Hm eq_refl Hs)].
-    unfold tail_es, file_ents. rewrite Hfiles, lookup_update_eq. unfold cur_ents. rewrite F4, F1.
+  assert (HDm : DIs c nb dm) by (eapply (DIs_update_tail c nb (sh d) dm _ S t f' HD Hm eq_refl eq_refl eq_refl Htok')).
+  assert (Hmm : dk_meta dm = Some {| ps_next_id := st_next_id w; ps_segs := S ++ [t] |}) by exact Hm.
+  assert (Hrd : dread dm = slog_of (hd_min S t) (lv_es (sh d) S t f0 ++ pe)).
+  { rewrite (dread_decomp c nb dm _ S t HDm Hmm eq_refl).
+    rewrite (sealed_es_update (sh d) dm S t f' eq_refl); [|intros s Hs; eapply (DIs_sealed_neq c nb (sh d) _ S t s HD Hm eq_refl Hs)].
+    unfold tail_es, file_ents. cbn [dm dk_files]. rewrite lookup_update_eq. unfold cur_ents. rewrite F4, F1.
     unfold lv_es. rewrite Hf0. cbn [sh_file df_ents]. rewrite skipn_app_le, app_assoc; [reflexivity|].
     unfold llen in Hmc. destruct (N.of_nat (length (df_ents f)) =? 0) eqn:Z; lia. }
-  destruct (list_eq_dec_nil pe) as [Epe|Hpe].
-  - (* an empty batch (a forced seal): the reading is the nominal one *)
-    apply cand_alts. rewrite Epe, app_nil_r in Hrd.
-    replace (sp_of (ad d)) with (sp_of (sh d)); [exact Hin|].
-    unfold sp_of. rewrite Hrd, (lv_read _ _ _ _ _ _ _ _ V). reflexivity.
-  - destruct (Hls Hpe) as (Hsop & Hdef & l0 & r & Epe & Hidx & Hcons).
-    eapply (cand_defer alts defer (sp_of (sh d)) (OStore pe)); [exact Hin|exact Hdef|].
-    unfold spec_accepts. cbn [step_spec sp_of sp_log sp_kv]. unfold spec_store. fold pe. rewrite Epe. rewrite <- Epe.
-    rewrite Hcons. cbn [andb].
-    destruct (lv_log_cases V) as [(Ees & ES & Elen & Edr & Emin)|(Ees & Edr & Elast & H2)].
-    + rewrite Edr. cbn [sl_is_empty sl_empty sl_ents orb]. f_equal. unfold sp_of. rewrite Hrd, Ees. cbn [app].
-      rewrite Epe. cbn [slog_of]. rewrite <- Epe. f_equal. f_equal. subst S. unfold hd_min. cbn [hd].
-      rewrite Hf0 in Elen. cbn [sh_file df_ents] in Elen. lia.
-    + rewrite Edr. assert (Hne' : sl_is_empty {| sl_first := hd_min S t; sl_ents := lv_es (sh d) S t f0 |} = false).
-      { unfold sl_is_empty. cbn. destruct (lv_es (sh d) S t f0); [congruence|reflexivity]. }
-      rewrite Hne'. cbn [orb]. rewrite Edr in Elast. rewrite Elast. rewrite Hf0. cbn [sh_file df_ents].
-      replace (l_index l0 =? si_base t + llen (df_ents f) - 1 + 1) with true.
-      2:{ symmetry. apply N.eqb_eq. rewrite Hf0 in H2. cbn [sh_file df_ents] in H2. lia. }
-      cbn [sl_first sl_ents]. f_equal. unfold sp_of. rewrite Hrd. f_equal. rewrite <- Hf0.
-      destruct (lv_es (sh d) S t f0) eqn:El; [congruence|]. reflexivity.
+  apply (RD_frame c nb d dm alts defer HDm eq_refl eq_refl ND).
+  - intros n Hn. cbn [dm dk_files]. rewrite lookup_update. destruct (fname_eqb n (name_of t)); [discriminate|].
+    unfold sh. rewrite lookup_map_files. destruct (lookup n (dk_files d)); [discriminate|congruence].
+  - intros ps s Hm' Hs. rewrite Hmm in Hm'. inversion Hm'; subst ps. cbn [ps_segs] in Hs.
+    rewrite ad_lookup. cbn [dm dk_files]. apply in_app_or in Hs. destruct Hs as [Hs|[<-|[]]].
+    + rewrite lookup_update_neq by (eapply (DIs_sealed_neq c nb (sh d) _ S t s HD Hm eq_refl Hs)).
+      unfold sh. rewrite lookup_map_files. destruct (lookup (name_of s) (dk_files d)) as [g|] eqn:Eg; [|reflexivity].
+      cbn [option_map]. rewrite (adopt_nopend_sh' g (Hsealed s g Hs Eg)). reflexivity.
+    + rewrite lookup_update_eq, Hf. reflexivity.
+  - destruct Hpe as [Epe|(Hsop & Hdef & l0 & r & Epe & Hidx & Hcons)].
+    + apply cand_alts. subst pe. rewrite app_nil_r in Hrd.
+      replace (sp_of dm) with (sp_of (sh d)); [exact Hin|].
+      unfold sp_of. rewrite Hrd, (lv_read _ _ _ _ _ _ _ _ V). reflexivity.
+    + eapply (cand_defer alts defer (sp_of (sh d)) (OStore pe)); [exact Hin|exact Hdef|].
+      unfold spec_accepts. cbn [step_spec sp_of sp_log sp_kv]. unfold spec_store. rewrite Epe. rewrite <- Epe.
+      rewrite Hcons. cbn [andb].
+      destruct (lv_log_cases V) as [(Ees & ES & Elen & Edr & Emin)|(Ees & Edr & Elast & H2)].
+      * rewrite Edr. cbn [sl_is_empty sl_empty sl_ents orb]. f_equal. unfold sp_of. rewrite Hrd, Ees. cbn [app].
+        rewrite Epe. cbn [slog_of]. rewrite <- Epe. f_equal. f_equal. subst S. unfold hd_min. cbn [hd].
+        rewrite Hf0 in Elen. cbn [sh_file df_ents] in Elen. lia.
+      * rewrite Edr. assert (Hne' : sl_is_empty {| sl_first := hd_min S t; sl_ents := lv_es (sh d) S t f0 |} = false).
+        { unfold sl_is_empty. cbn. destruct (lv_es (sh d) S t f0); [congruence|reflexivity]. }
+        rewrite Hne'. cbn [orb]. rewrite Edr in Elast. rewrite Elast. rewrite Hf0. cbn [sh_file df_ents].
+        replace (l_index l0 =? si_base t + llen (df_ents f) - 1 + 1) with true.
+        2:{ symmetry. apply N.eqb_eq. rewrite Hf0 in H2. cbn [sh_file df_ents] in H2. lia. }
+        cbn [sl_first sl_ents]. f_equal. unfold sp_of. rewrite Hrd. f_equal. rewrite <- Hf0.
+        destruct (lv_es (sh d) S t f0) eqn:El; [congruence|]. reflexivity.
 Qed.
